@@ -162,6 +162,12 @@ pub fn into_tokens(c: char, it: &mut Peekable<Chars>, state: &mut State) -> LexR
                     _ => break,
                 }
             }
+            if PY_RESERVED.contains(&id_or_operation.as_str()) {
+                let msg = format!(
+                    "'{id_or_operation}' is a reserved word of Python and cannot be an identifier"
+                );
+                return Err(LexErr::new(state.pos, None, &msg));
+            }
             create(state, as_op_or_id(id_or_operation))
         }
         '"' => {
@@ -262,6 +268,12 @@ fn next_and_create(
 fn create(state: &mut State, token: Token) -> LexResult<Vec<Lex>> {
     Ok(state.token(token))
 }
+
+/// Reserved words of Python which are not keywords of Mamba: as identifier these would be emitted verbatim.
+const PY_RESERVED: [&str; 12] = [
+    "assert", "async", "await", "del", "elif", "except", "finally", "global", "lambda", "nonlocal",
+    "try", "yield",
+];
 
 fn as_op_or_id(string: String) -> Token {
     match string.as_ref() {
